@@ -130,7 +130,16 @@ def run_impl(p):
         if k == "int":
             return r[ix["i"]]
         if k == "list":
-            return r[list(ix["is"])] if len(ix["is"]) % 2 == 0 else r[np.array(ix["is"], dtype=int)]
+            if len(ix["is"]) % 2 == 0:
+                return r[list(ix["is"])]
+            ia = np.array(ix["is"], dtype=[np.int64, np.int32, np.int16][len(ix["is"]) % 3] if max([abs(i) for i in ix["is"]] + [0]) < 30000 else np.int64)
+            keep = ia.copy()
+            if sum(ix["is"]) % 2:
+                ia.setflags(write=False)        # an index array the caller does not allow to be written to
+            res = r[ia]
+            if not np.array_equal(ia, keep):
+                raise AssertionError("indexing modified the caller's index array")
+            return res
         if k == "slice":
             res = r[slice(ix["a0"], ix["b0"], ix["k"])]
             return _rl_result(res, joined=ix["k"] not in (None, 1))
@@ -142,7 +151,8 @@ def run_impl(p):
                 else:
                     m = RunLengthArray.from_array(np.array(ix["bs"], dtype=bool))
                 return _rl_result(r[m], joined=False)
-            return r[np.array(ix["bs"], dtype=bool)]
+            # a dense mask as an ndarray or as a plain Python list of bools (numpy treats both as a mask)
+            return r[np.array(ix["bs"], dtype=bool)] if sum(ix["bs"]) % 2 == 0 else r[[bool(b) for b in ix["bs"]]]
         if k == "windows":
             res = r[np.array(ix["ss"]):np.array(ix["es"])]
             return res.to_array()
